@@ -20,7 +20,7 @@ Qed.
 Lemma grow_same_tl m c s s' : tl s' = tl s -> grow m c s s' [].
 Proof. intros E. unfold grow. rewrite E. destruct (cap m c); simpl; rewrite app_nil_r; reflexivity. Qed.
 
-Definition mk_rep (n : evname) (att sl : Z) (k : option klass) (err : bool) (r : option stop) (cs : option cause) (ra : option Z) : report :=
+Definition mk_rep (n : evname) (att sl : Z) (k : option klass) (err : bool) (r : option stop) (cs : option cause) (ra : option hint) : report :=
   {| r_name := n; r_att := att; r_sleep := sl; r_class := k; r_err := err; r_stop := r; r_cause := cs; r_ra := ra |}.
 
 Lemma emit_grow m c e s n att sl k err r cs ra s' tr :
